@@ -309,6 +309,15 @@ theorem C18_uniform_directions (I : UIce) (p q : P3) (m : Nat) (up : Bool)
     rw [← pow_add, ← two_mul, pow_mul]; norm_num
   exact normalize_flipz _ ht ⟨q.x - p.x, q.y - p.y, mirrorZ I.lo I.hi up (m + 1) q.z - p.z⟩
 
+/-- on its range bounds (included) a uniform ice has its own index, not the outside one: an endpoint or a reflection
+point exactly on a bound travels with `n`, so `tof = n L / c` there too -/
+theorem C18_index_on_bounds (I : UIce) (hlh : I.lo ≤ I.hi) : I.index I.lo = I.n ∧ I.index I.hi = I.n := by
+  have a1 : ¬ I.lo < I.lo := lt_irrefl _
+  have a2 : ¬ I.lo > I.hi := not_lt.mpr hlh
+  have a3 : ¬ I.hi < I.lo := not_lt.mpr hlh
+  have a4 : ¬ I.hi > I.hi := lt_irrefl _
+  constructor <;> simp [UIce.index, a2, a3]
+
 /-! ## the enumeration of layer index paths -/
 
 open PyrexD.LayerPaths in
@@ -348,3 +357,27 @@ example : ∃ c : StepCtx, c.two = false ∧ c.trans = true ∧ 0 < c.nHere ∧ 
     stepAngle c 0 = some 0 :=
   ⟨⟨false, true, 1.5, 1.7, 1.5, false, false, false, false, false⟩, rfl, rfl, by norm_num, by norm_num, by
     simp [stepAngle, Rsin, Rasin, Rpi]; positivity⟩
+
+/-- `C18_chain_continuous` is about chains with at least two single-layer paths -/
+example : 0 + 1 < (subPaths [⟨0, 0, -100⟩, ⟨10, 0, -50⟩, ⟨30, 0, -20⟩] [0.3, 0.5] [true, true]).length := by
+  simp [subPaths]
+
+/-- a reflecting step in a uniform layer (`nHere = nStop`) exists and mirrors the angle (reflection clauses of
+`C18_snell_at_boundary`), and an index-matched cut (`C18_split_uniform_same_angle`) -/
+example : stepAngle ⟨false, false, 1.5, 1.5, 1.5, false, false, false, false, false⟩ 1 = some (Real.pi - 1) ∧
+    (⟨false, true, 1.5, 1.5, 1.5, false, false, false, false, false⟩ : StepCtx).nHere =
+      (⟨false, true, 1.5, 1.5, 1.5, false, false, false, false, false⟩ : StepCtx).nNext := by
+  constructor
+  · simp [stepAngle, guardHit, Rpi]
+  · rfl
+
+/-- hypotheses of the Fresnel theorems and of `C18_split_uniform_same_root` -/
+example : (0 : ℝ) < 1.78 ∧ (0 : ℝ) ≤ 0.5 ∧ (0.5 : ℝ) < Real.pi / 2 ∧ (0.5 : ℝ) ≠ Real.pi / 2 := by
+  have := Real.two_le_pi
+  refine ⟨by norm_num, by norm_num, by linarith, by linarith⟩
+
+/-- `C18_split_exponential_telescopes`: the same angle on both sides of a cut satisfies its hypotheses -/
+example (n θ : ℝ) : n * Real.sin θ = n * Real.sin θ := rfl
+
+/-- a uniform ice with `lo ≤ hi` (hypothesis of `C18_index_on_bounds`, `C18_uniform_tof`) -/
+example : ((⟨1.5, -100, 0, some 1, some 1.2⟩ : UIce).lo ≤ (⟨1.5, -100, 0, some 1, some 1.2⟩ : UIce).hi) := by norm_num
